@@ -34,6 +34,8 @@ structure Manifest where
   detach : Bool := false
   rev : Int := 0
   mutFrom : Option Id := none
+  /-- the apply-time-mutation annotation lists, BEFORE the source above, a source that is in neither set (external) -/
+  mutExt : Bool := false
   owner : String := ""           -- only for pre-existing objects
 deriving DecidableEq, Repr, Inhabited
 
@@ -49,6 +51,7 @@ structure Opts where
   timeout : Bool := false
   emitStatus : Bool := false
   foreground : Bool := false
+  statusAll : Bool := false      -- inventory client built with StatusPolicyAll (object statuses stored in the inventory)
 deriving Repr, Inhabited
 
 inductive CancelAt
@@ -152,7 +155,12 @@ def depAnn (deps : List Id) (depsRaw : String) : DepEdges.Ann :=
     | none => .invalid
   else if deps.isEmpty then .absent else .refs deps
 
-def mutAnn (mf : Option Id) : DepEdges.Ann := match mf with | some s => .refs [s] | none => .absent
+def mutExtSource : Id := { ns := "ns1", name := "absent", group := "", kind := "ConfigMap" }
+
+def mutAnn (mf : Option Id) (ext : Bool := false) : DepEdges.Ann :=
+  match mf with
+  | some s => .refs (if ext then [mutExtSource, s] else [s])
+  | none => .absent
 
 /-! ## events, requests, run state -/
 
@@ -350,7 +358,7 @@ def dependentsOrdered (edges : List (Id × Id)) (v : Id) : List Id :=
   dedup ((edges.filter (fun e => e.2 = v)).map (·.1))
 
 def dobjOfManifest (m : Manifest) : DepEdges.DObj :=
-  { id := m.id, dependsOn := depAnn m.deps m.depsRaw, mutation := mutAnn m.mutFrom }
+  { id := m.id, dependsOn := depAnn m.deps m.depsRaw, mutation := mutAnn m.mutFrom m.mutExt }
 def dobjOfLive (o : Live) : DepEdges.DObj :=
   { id := o.id, dependsOn := depAnn o.deps o.depsRaw, mutation := mutAnn o.mutFrom }
 
@@ -690,7 +698,7 @@ def mergeInv (s : St) (ids : List Id) : TaskRes :=
       let clusterObjs := cur.getD []
       let union := IdSet.union clusterObjs ids
       if !storable union then (r2.1, some "other")
-      else if IdSet.equal ids clusterObjs then (r2.1, none)
+      else if IdSet.equal ids clusterObjs && !r2.1.run.opts.statusAll then (r2.1, none)
       else if dryOf r2.1 then (r2.1, none)
       else
         let r := r2.1.mutReq "update" invObjId false "" "" (invUpdateEffect union)
@@ -718,7 +726,7 @@ def replaceInv (s : St) (objs : List Id) : TaskRes :=
       | some cur =>
         let clusterObjs := cur.getD []
         if !storable objs then (r2.1, some "other")
-        else if IdSet.equal objs clusterObjs then (r2.1, none)
+        else if IdSet.equal objs clusterObjs && !r2.1.run.opts.statusAll then (r2.1, none)
         else
           let r := r2.1.mutReq "update" invObjId false "" "" (invUpdateEffect (dedup objs))
           (r.1, errOfRes r.2)
@@ -775,6 +783,7 @@ def scriptFor (run : Run) (cond : Wait.Cond) (id : Id) : List (List Delivery) :=
     | "stale" => [[⟨id, .current, true, -1, false, false⟩]]
     | "failed" => [[⟨id, .failed, true, 0, false, false⟩]]
     | "failed-current" => [[⟨id, .failed, true, 0, false, false⟩, ⟨id, .current, true, 0, false, false⟩]]
+    | "failed-stale" => [[⟨id, .failed, true, 0, false, false⟩, ⟨id, .current, true, -1, false, false⟩]]
     | "replaced" => [[⟨id, .current, true, 0, true, false⟩]]
     | _ => [[⟨id, .current, true, 0, false, false⟩]]
 
